@@ -14,10 +14,7 @@ use std::sync::Arc;
 impl Parser {
     pub fn expression(&mut self) -> Result<Expr> {
         self.enter_recursion()?;
-        // the links of a finished subexpression no longer enclose what follows it
-        let links = self.chain_links;
         let result = self.assignment();
-        self.chain_links = links;
         self.exit_recursion();
         result
     }
@@ -133,10 +130,12 @@ impl Parser {
     }
 
     fn or_expr(&mut self) -> Result<Expr> {
+        let outer = self.chain_begin();
+        let mut links = 0;
         let mut left = self.and_expr()?;
 
         while self.match_token(&TokenKind::Or) {
-            self.chain_link()?;
+            self.chain_link(&mut links)?;
             let right = self.and_expr()?;
             let span = left.span.merge(right.span);
             left = Expr::new(
@@ -148,14 +147,17 @@ impl Parser {
             );
         }
 
+        self.chain_end(outer, links);
         Ok(left)
     }
 
     fn and_expr(&mut self) -> Result<Expr> {
+        let outer = self.chain_begin();
+        let mut links = 0;
         let mut left = self.bit_or()?;
 
         while self.match_token(&TokenKind::And) {
-            self.chain_link()?;
+            self.chain_link(&mut links)?;
             let right = self.bit_or()?;
             let span = left.span.merge(right.span);
             left = Expr::new(
@@ -167,6 +169,7 @@ impl Parser {
             );
         }
 
+        self.chain_end(outer, links);
         Ok(left)
     }
 
